@@ -458,6 +458,8 @@ def gen_node_ops(rng, n):
             ops.append(("rotate",))
         elif r < 0.87:
             ops.append(("clean",))
+        elif r < 0.885:
+            ops.append(("ping", ident))
         elif r < 0.90:
             ops.append(("burst", ident, rng.choice([9, 10, 11, 12])))
         elif r < 0.93:
@@ -509,8 +511,8 @@ class NodeRun:
 
     async def run(self):
         from ipv8.dht.discovery import DHTDiscoveryCommunity
-        from ipv8.dht.payload import (FindRequestPayload, FindResponsePayload, StorePeerRequestPayload,
-                                      StoreRequestPayload)
+        from ipv8.dht.payload import (FindRequestPayload, FindResponsePayload, PingRequestPayload,
+                                      StorePeerRequestPayload, StoreRequestPayload)
         from ipv8.dht.routing import Node, calc_node_id, distance
         from ipv8.messaging.interfaces.udp.endpoint import UDPv4Address
         from ipv8.messaging.payload_headers import BinMemberAuthenticationPayload
@@ -650,6 +652,14 @@ class NodeRun:
             if len(resp.values) > 8:
                 self.fail("DHTCommunity.on_find_request:too-many-values", f"{len(resp.values)} values in one response", i)
 
+        async def do_ping(ident):
+            k, a = ident
+            ident_no[0] += 1
+            data = await deliver(S, a, pack(k, PingRequestPayload.msg_id, PingRequestPayload(ident_no[0])), 2)
+            _, nid = who(ident)
+            self.emit(f"ping {nid}", "resp=1" if data is not None else "resp=0")
+            ctx.count("B.ping:" + ("answered" if data is not None else "blocked"))
+
         for i, op in enumerate(self.ops):
             if self.failed:
                 break
@@ -660,8 +670,13 @@ class NodeRun:
                 if op[1] not in s2_tokens:
                     await do_find(i, op[1], op[2], 0, False, node=S2)
             elif op[0] == "burst":
-                for _ in range(op[2]):
-                    await do_find(i, op[1], 0, 0, True)
+                for j in range(op[2]):
+                    if j % 3 == 2:
+                        await do_ping(op[1])      # pings count towards the same rate limit
+                    else:
+                        await do_find(i, op[1], 0, 0, True)
+            elif op[0] == "ping":
+                await do_ping(op[1])
             elif op[0] == "fill":
                 rt = ov.get_routing_table(Node(W.keys[0].pub(), addrs[0]))
                 for _ in range(op[1]):
@@ -717,6 +732,11 @@ class NodeRun:
                     ctx.count("B.store:oversized")
                 if many:
                     ctx.count("B.store:too-many")
+                if data is None and not changed:
+                    ctx.count("B.reject-class:" + ("limits" if (big or many) else "token" if not ok_tok else
+                                                   "blocked-or-noop"))
+                if data is None and changed:
+                    ctx.count("B.store:exception-after-partial-store")
                 if data is not None or changed:
                     self.flags.add("acc")
                     if not ok_tok:
